@@ -158,7 +158,7 @@ func main() {
 		known := map[string]KnownFinding{}
 		for _, p := range pos[1:] {
 			for _, k := range loadKnown(*verif) {
-				if k.Property == p && k.Status != "fixed" {
+				if (k.Property == p || p == "all") && k.Status != "fixed" {
 					known[k.Obligation] = k
 				}
 			}
